@@ -25,6 +25,9 @@ Record case8 := mkC8 {
   k_max_gamma : Q ;
   k_max_backjumps : option Z ;
   k_runs : list run8 ;
+  k_check_model : bool ;     (* false: the search visited more states than the model-evaluation budget of the harness; the runs are
+                                then NOT compared with the model (their tapes are not even recorded in the literal), only judged by
+                                the oracle (k_oracle) *)
   k_oracle : bool            (* harness: the independent brute-force oracle (harness/c08.py: judge) ACCEPTS the recorded
                                 outputs.  false makes the case count as a disagreement, so that run.py judges and reports it
                                 even when model and implementation agree with each other. *)
@@ -52,7 +55,7 @@ Definition cmp_run (k : case8) (r : run8) : option (list bool) :=
 Definition chk_run (k : case8) (r : run8) : bool :=
   match cmp_run k r with Some l => forallb (fun b => b) l | None => false end.
 
-Definition chk_c08 (k : case8) : bool := forallb (chk_run k) (k_runs k) && k_oracle k.
+Definition chk_c08 (k : case8) : bool := (if k_check_model k then forallb (chk_run k) (k_runs k) else true) && k_oracle k.
 
 (* diagnosis helper: what the model computes for every run *)
 Definition model_runs (k : case8) : list (option (Q * bool)) :=
